@@ -21,7 +21,7 @@ B(i) == [Empty EXCEPT !.i = i]
 B2 == [Empty EXCEPT !.i = 2, !.f = [p |-> TRUE, c |-> 1, d |-> 0]]
 Bodies == { B(0), B(1), B2 }
 
-Plain == [M |-> NilMask, R |-> NilMask, mm |-> NilMask, ev |-> NoMsg, chk |-> 0, xa |-> FALSE, cia |-> FALSE, am |-> FALSE,
+Plain == [M |-> NilMask, R |-> NilMask, mm |-> NilMask, W |-> NilMask, mw |-> NilMask, aw |-> FALSE, ev |-> NoMsg, chk |-> 0, xa |-> FALSE, cia |-> FALSE, am |-> FALSE,
           gen |-> FALSE, first |-> "g", ib |-> 0, ia |-> 0, wt |-> -1]
 UOpts == { Plain, [Plain EXCEPT !.cia = TRUE], [Plain EXCEPT !.cia = TRUE, !.xa = TRUE],
            [Plain EXCEPT !.ev = Some(B(1))], [Plain EXCEPT !.chk = 1, !.cia = TRUE],
